@@ -34,6 +34,14 @@ def run_doctests():
         with open(os.path.join(factsmod.CACHE, 'locks', 'witness.lock'), 'w') as lock:
             fcntl.flock(lock, fcntl.LOCK_EX)
             r = subprocess.run(['cargo', '+nightly', 'test', '--doc', '--offline'], cwd=work, env=env, stdout=subprocess.PIPE, stderr=subprocess.STDOUT, text=True)
+            # the build output of every analysed tree accumulates here (~50 MB each): keep it bounded
+            tdir = os.path.join(factsmod.CACHE, 'witness-target')
+            try:
+                size = sum(os.path.getsize(os.path.join(dp, f)) for dp, _, fs in os.walk(tdir) for f in fs)
+                if size > 400 * 1024 * 1024:
+                    shutil.rmtree(tdir, ignore_errors=True)
+            except OSError:
+                pass
     finally:
         shutil.rmtree(work, ignore_errors=True)
     res = {}
